@@ -1,8 +1,10 @@
 package main
 
 import (
+	"bytes"
 	"crypto/rand"
 	"crypto/rsa"
+	"encoding/base64"
 	"fmt"
 	"io"
 	"net/http"
@@ -280,8 +282,15 @@ func runC13(r *Run) {
 				if byte(ch) == v[i] {
 					continue
 				}
-				nm++
 				mv := v[:i] + string(ch) + v[i+1:]
+				// a substitution in the unused trailing bits of the base64 text decodes to the very
+				// same bytes: that is the same cookie, not an altered one
+				if d0, e0 := base64.URLEncoding.DecodeString(v); e0 == nil {
+					if d1, e1 := base64.URLEncoding.DecodeString(mv); e1 == nil && bytes.Equal(d0, d1) {
+						continue
+					}
+				}
+				nm++
 				st, body := try(mv)
 				r.Count("cookie:" + store + mv)
 				if st == 200 && strings.Contains(body, "auth=true") {
